@@ -35,6 +35,10 @@ pub struct StatSnap {
     pub bytes: u64,
     pub failed: u64,
     pub unique: u64,
+    /// the recorder's overflow count now
+    pub overflows: u64,
+    /// overflow counts seen just before each observed reset (a lower bound of what earlier epochs turned away)
+    pub overflows_before_resets: u64,
     pub entries: Vec<(IpAddr, [u64; 8])>,
 }
 
@@ -252,6 +256,8 @@ fn snap_stats(st: &dyn roughenough::stats::ServerStats, per_client: bool) -> Sta
         bytes: st.total_bytes_sent() as u64,
         failed: st.total_failed_send_attempts(),
         unique: st.total_unique_clients(),
+        overflows: st.verif_num_overflows(),
+        overflows_before_resets: 0,
         entries,
     }
 }
@@ -278,10 +284,16 @@ fn w_worker(spec: ServerSpec, queue: Arc<roughenough::stats::StatsQueue>, snap: 
     let mut server = roughenough::server::Server::new(&cfg, sock, queue);
     let name = dsim::current_task_name().unwrap_or_default();
     let mut events = mio::Events::with_capacity(1024);
+    let (mut prev_over, mut acc_over) = (0u64, 0u64);
     loop {
         server.process_events(&mut events);
         if snap {
-            let s = snap_stats(server.verif_stats(), cfg.client_stats);
+            let mut s = snap_stats(server.verif_stats(), cfg.client_stats);
+            if s.overflows < prev_over {
+                acc_over += prev_over;
+            }
+            prev_over = s.overflows;
+            s.overflows_before_resets = acc_over;
             ctx(|c| {
                 c.max_unique = c.max_unique.max(s.unique);
                 c.snaps.insert(name.clone(), s)
